@@ -25,6 +25,10 @@ func (Engine) Generate(r *core.Rng, property, tier string) *core.Plan {
 		p.SetKnob("weird", int64(r.Range(1, 4)))
 		p.SetKnob("weirdpick", int64(r.Intn(1000)))
 	}
+	if property == "C05" || r.Bool(0.2) {
+		// multisig actors: addresses controlled by M of N key-holding actors
+		p.SetKnob("multi", int64(r.Range(1, 2)))
+	}
 	n := r.Range(12, 45)
 	if tier == "thorough" {
 		n = r.Range(12, 80)
@@ -67,7 +71,7 @@ func (Engine) Generate(r *core.Rng, property, tier string) *core.Plan {
 		g.poolHeavy = true
 	case "C11":
 		g.on["badblock"] = true
-		g.badKinds = []string{"reward+1", "reward-1", "cb-shift", "cb-shift-dpos", "cb-addr", "cb-addr-dpos", "cb-count4", "cb-count2"}
+		g.badKinds = []string{"reward+1", "reward-1", "cb-shift", "cb-shift-dpos", "cb-addr", "cb-addr-dpos", "cb-count4", "cb-count2", "cb-extra-0", "cb-extra-1", "cb-extra-big"}
 	}
 	if property == "C11" || r.Bool(0.15) {
 		// the simulated environment reports DPoS v2 as active from an early
@@ -129,6 +133,17 @@ func (g *gen) goodTx() TxSpec {
 	if r.Bool(0.1) {
 		t.Amt = 5 // zero-value output: legal, must stay out of address lists
 	}
+	if nm := int(g.p.Knob("multi", 0)); nm > 0 {
+		// multisig actors sit right after the key-holding ones: pay them and
+		// spend from them often enough that both happen within a short run
+		first := int(g.p.Knob("actors", 5))
+		if r.Bool(0.25) {
+			t.To[0] = first + r.Intn(nm)
+		}
+		if r.Bool(0.25) {
+			t.From = first + r.Intn(nm)
+		}
+	}
 	return t
 }
 
@@ -150,7 +165,7 @@ func (g *gen) badTx() TxSpec {
 		modes := []int{1, 2, 3, 4, 6, 7}
 		t.Amt = modes[r.Intn(len(modes))]
 	case 1:
-		t.Sign = r.Range(1, 5)
+		t.Sign = r.Range(1, 7)
 		if r.Bool(0.3) {
 			t.Sign = 0
 			t.InKind = 3 // someone else's output, own signature
@@ -219,8 +234,39 @@ func (g *gen) mutStep() Step {
 	return Step{Op: "blockmut", Block: b, Muts: muts}
 }
 
+// orphanFamily: a parent is withheld while several of its descendants on two
+// or three sibling branches are delivered first (they wait as orphans that
+// share one missing parent); then the parent arrives.
+func (g *gen) orphanFamily() {
+	r := g.r
+	small := func(pm, parent int, hold bool) Step {
+		b := &BlockSpec{Miner: r.Intn(10), Dt: r.Intn(300), PMode: pm, Parent: parent, Hold: hold}
+		if r.Bool(0.5) {
+			b.Txs = append(b.Txs, g.goodTx())
+		}
+		return Step{Op: "mine", Block: b}
+	}
+	start := 0
+	if r.Bool(0.5) {
+		start = 2 // fork a little below the tip
+	}
+	g.p.Add(small(start, r.Range(1, 3), true)) // the withheld parent P
+	g.p.Add(small(4, 0, false))                // a1 on P: orphan
+	for b := r.Range(1, 3); b > 0; b-- {
+		g.p.Add(small(5, 0, false)) // a sibling of the last block: also a child of P
+	}
+	for k := r.Range(0, 3); k > 0; k-- {
+		g.p.Add(small(4, 0, false)) // the last sibling's branch grows longer than the others
+	}
+	g.p.Add(Step{Op: "deliver", Ref: -1}) // P (the block held last) arrives
+}
+
 func (g *gen) step() {
 	r := g.r
+	if g.on["reorder"] && r.Bool(0.06) {
+		g.orphanFamily()
+		return
+	}
 	if (g.prop == "C07" && r.Bool(0.45)) || (g.prop != "C07" && g.on["badblock"] && r.Bool(0.04)) {
 		g.p.Add(g.mutStep())
 		return
